@@ -1,4 +1,7 @@
 import SC.Proofs.KernSmall
+import SC.Proofs.KernBlocks
+import SC.Model.AsmShape
+import SC.Gen.AsmFacts
 /-!
 # C13 — SIMD byte kernels equal their scalar definition at every length and alignment
 
@@ -23,4 +26,53 @@ theorem small_is_scalar (p : UInt8 → Bool) (mem : Mem) (base len : Nat) (hlen 
 theorem small_never_faults (p : UInt8 → Bool) (mem : Mem) (base len : Nat) (hlen : len < 16) (h0 : 0 < len) :
     ∀ ld ∈ (small p mem base len).2, ∀ a, ld.1 ≤ a → a < ld.1 + ld.2 →
       ∃ b, base ≤ b ∧ b < base + len ∧ a / 4096 = b / 4096 := small_loads_safe p mem base len hlen h0
+
+/-- **tie to the source**: the instruction shape (mnemonics and integer operands per TEXT symbol and label) of the
+    three amd64 kernels in the working tree is the one the block model was written against -/
+theorem asm_shape : Gen.Asm.shape = Kern.expectedShape := eq_of_beq (by decide +kernel)
+
+/-- block geometries read off the shape -/
+def sse16 : LoopP := ⟨16, 16, 16⟩
+def avx32 : LoopP := ⟨32, 32, 32⟩
+def avx64 : LoopP := ⟨64, 64, 64⟩
+
+/-- every search loop (SSE 16-byte and AVX2 32-byte blocks, of `indexbytebody`, `indexbytebodyCase` and
+    `indexByteBodyNonASCII`) returns the scalar definition and loads only bytes of the argument -/
+theorem search_loops (P : LoopP) (hP : P = sse16 ∨ P = avx32) (p : UInt8 → Bool) (mem : Mem) (base len : Nat)
+    (hlen : P.width ≤ len) :
+    (idxLoop P p mem base len (len + 1) 0).1 = specIndex p mem base len ∧
+    ∀ ld ∈ (idxLoop P p mem base len (len + 1) 0).2, base ≤ ld.1 ∧ ld.1 + ld.2 ≤ base + len := by
+  have hok : P.ok := by rcases hP with h | h <;> subst h <;> exact ⟨rfl, rfl, by decide⟩
+  have hw : 1 ≤ P.width := hok.2.2
+  apply idxLoop_correct P hok p mem base len hlen (len + 1) 0 (by omega)
+  · have : len + 1 ≤ (len + 1) * P.width := Nat.le_mul_of_pos_right _ hw
+    omega
+  · intro i hi; omega
+
+/-- every counting loop (SSE 16-byte, AVX2 64-byte iterations, of `countbody` and `countbodyCase`, with the masked
+    overlapping tail) returns the number of matching bytes and loads only bytes of the argument -/
+theorem count_loops (P : LoopP) (hP : P = sse16 ∨ P = avx64) (p : UInt8 → Bool) (mem : Mem) (base len : Nat)
+    (hlen : P.width ≤ len) :
+    (cntLoop P p mem base len (len + 1) 0 0).1 = specCount p mem base len ∧
+    ∀ ld ∈ (cntLoop P p mem base len (len + 1) 0 0).2, base ≤ ld.1 ∧ ld.1 + ld.2 ≤ base + len := by
+  have hok : P.ok := by rcases hP with h | h <;> subst h <;> exact ⟨rfl, rfl, by decide⟩
+  have hw : 1 ≤ P.width := hok.2.2
+  have h := cntLoop_correct P hok p mem base len hlen (len + 1) 0 0 (by omega)
+    (by have : len + 1 ≤ (len + 1) * P.width := Nat.le_mul_of_pos_right _ hw
+        simp only [Nat.add_zero]; omega) (by simp [cntBlk])
+  simpa using h
+
+/-- the `len < 16` counting path: scalar definition, and no load can fault next to an unmapped page -/
+theorem count_small (p : UInt8 → Bool) (mem : Mem) (base len : Nat) (hlen : len < 16) :
+    (cntSmall p mem base len).1 = specCount p mem base len ∧
+    (0 < len → ∀ ld ∈ (cntSmall p mem base len).2, ∀ a, ld.1 ≤ a → a < ld.1 + ld.2 →
+      ∃ b, base ≤ b ∧ b < base + len ∧ a / 4096 = b / 4096) :=
+  ⟨cntSmall_correct p mem base len hlen, cntSmall_loads_safe p mem base len hlen⟩
+
+/-- the mask arithmetic the kernels use to select lanes (all shift counts) -/
+theorem lane_masks :
+    (∀ c : Fin 17, ∀ j : Fin 16, ((0xFFFF >>> c.val) <<< c.val).testBit j.val = decide (c.val ≤ j.val)) ∧
+    (∀ n : Fin 16, ∀ j : Fin 16, ((1 <<< n.val) - 1).testBit j.val = decide (j.val < n.val)) ∧
+    (∀ c : Fin 65, ∀ j : Fin 64, ((0xFFFFFFFFFFFFFFFF <<< c.val) % 2 ^ 64).testBit j.val = decide (c.val ≤ j.val)) :=
+  ⟨highMask16, lowMask16, highMask64⟩
 end C13
